@@ -429,6 +429,20 @@ def build_compound(E, c):
     v = float(val)
     natural = kind == "nat"
     rho = v * m_act / natural_mass_of(E, pairs) if natural else v
+    R = c.get("long")
+    if R:
+        # a LONG compound: the same formula unit R times over, as one flat formula of (number of fragments x R)
+        # top-level fragments (a polymer or a chain written out residue by residue).  Built as an object, either by
+        # repeated += or from the long string; SLDs do not depend on R, the composition is R times the unit's.
+        key = "natural_density" if natural else "density"
+        unit = pt.formula(text, **tk)
+        if c["route"] == "obj-iadd":
+            g = pt.formula(text, **tk)
+            for _ in range(R - 1):
+                g += unit
+        else:
+            g = pt.formula("+".join([text] * R), **tk)
+        return g, {key: v}, [(a, n * R) for a, n in pairs], rho, "%d x (%s)" % (R, text)
     tag = "@" + val + {"abs": "", "nat": "n", "i": "i"}[kind]
     key = "natural_density" if natural else "density"
     route = c["route"]
@@ -516,6 +530,8 @@ def _check_compound(ctx, case):
         cls.append("energy-dependent" + (":wl" if wl is not None else ""))
     if c["group"]:
         cls.append("grouped")
+    if c.get("long"):
+        cls.append("long:%s:fragments>=%d" % (c["route"], 1000 * (len(getattr(arg, "structure", ())) // 1000)))
     for spec, _ in c["items"]:
         if spec != "L":
             cls.append("atom:" + ("H-other" if canon(spec)[0] == "H" and (canon(spec)[1] == 3 or spec[2]) else
@@ -983,6 +999,26 @@ def sweep_tables(ctx, E, grid=None):
     return n
 
 
+def long_strategy(E):
+    def lengthen(t):
+        case, total, route = t
+        c = dict(case["c"])
+        if c["dens"][0] == "element":
+            return case
+        nfrag = max(1, len(c["items"]) if not c["group"] else 1)
+        c["long"] = max(2, total // nfrag + 1)
+        c["route"] = route
+        return dict(case, c=c, wl=None if isinstance(case["wl"], (list, tuple)) and isinstance(case["wl"][1], list) else case["wl"])
+    return st.tuples(case_strategy(E), st.sampled_from([1000, 1024, 1100, 1500, 2100, 4100]),
+                     st.sampled_from(["obj-iadd", "obj-iadd", "obj-str"])).map(lengthen)
+
+
+def task_long(ctx, n):
+    limit_memory()
+    E = env()
+    ctx.search("long-compounds", long_strategy(E), check_compound, n)
+
+
 def task_compounds(ctx, n):
     limit_memory()
     E = env()
@@ -1070,6 +1106,7 @@ def task_molecules(ctx, n):
 def tasks(tier):
     if tier == "quick":
         return [("tables", task_tables, {}),
+                ("long", task_long, dict(n=60)),
                 ("compounds-a", task_compounds, dict(n=270)),
                 ("compounds-b", task_compounds, dict(n=270)),
                 ("compounds-c", task_compounds, dict(n=270)),
@@ -1079,7 +1116,7 @@ def tasks(tier):
                 ("private-c", task_private, dict(n=200)),
                 ("molecules-a", task_molecules, dict(n=200)),
                 ("molecules-b", task_molecules, dict(n=200))]
-    out = [("tables", task_tables, {})]
+    out = [("tables", task_tables, {}), ("long-0", task_long, dict(n=600)), ("long-1", task_long, dict(n=600))]
     for k in range(9):
         out.append(("compounds-%d" % k, task_compounds, dict(n=10000)))
     for k in range(3):
